@@ -27,7 +27,13 @@ namespace mc
 {
     struct Abort
     {
-    }; // thrown to abandon the current case; never swallow it
+    }; // thrown to abandon the current case (it still counts as an explored leaf); never swallow it
+    struct Skip
+    {
+    }; // thrown to drop the current case entirely (not counted, reports discarded): used by
+       // harness-level partitioning, where another worker owns this part of the space
+    void request_restart(); // finish and commit the current case, then continue in a fresh worker
+                            // process (harnesses that leak parked threads / fake stacks)
 
     bool thorough(); // tier
     int jobs();      // worker processes
